@@ -132,7 +132,7 @@ CHECKS["C14"] = dict(
     rule="one forked child per case under ASan+UBSan: all 20 ordered pairs d1!=d2 x 25 binary entry points (4 '+' overloads, 2 '-', scalar product, iCommutator, ACommutator, 4 ElementwiseOperation overloads, "
          "ElementwiseProduct, += / -= with vector and with proxies, Evolve(op,t) by construction / = / += / -=, Rotate(matrix)) x {own, external storage}; constructors and factories for d in {1,7,8}; "
          "matrices r x c for r,c in 1..8 (non-square or unsupported); component lists of every length 1..64 that is not a supported square; factory indices up to d*d+2. "
-         "Oracle: a std::exception is thrown, every operand (and the red zone after external buffers) is bit-identical afterwards, no sanitizer report. distinct by case description",
+         "Oracle: a std::exception is thrown, every operand (and the red zone after external buffers) is bit-identical afterwards, no sanitizer report. Scalar products also between expression results and through SUTrace. distinct by case description",
     assumptions=["SUTrace called directly and UTransform(SU_vector) are not in the statement's list", "dimension 0 is not in the statement's window"],
     runs=[run("c14_asan", "c14.cpp", "asan", shards=16)],
 )
@@ -143,7 +143,7 @@ CHECKS["C04"] = dict(
          "(thorough 2..6) x nrhos 1..3 x nscalars 0..2 x all 32 switch settings x (unit impulse at every flat state index [dense non-commuting operators] + 3 probe states [time-dependent commuting operators]); every "
          "derivative array the library writes is compared with the dense reference -i[HI,rho]-{G,rho}+P, -g s+i at the stepper's time, term call times checked. Layer 2: rk2,rk4,rkf45,rkck,rk8pd adaptive+fixed and msadams "
          "adaptive (11 modes) x nx x nsun x nrhos x nscalars x 32 switches x t_ini in {0,1.5} against the closed form; dense non-commuting family against e^{K tau} rho e^{K^dagger tau}; time-dependent terms with sources "
-         "against an independent RK4 reference. non-trivial = at least one term enabled; distinct by (configuration, state / stepper mode)",
+         "against an independent RK4 reference. The five Set_*Terms calls made in 12 order classes x 32 masks. non-trivial = at least one term enabled; distinct by (configuration, state / stepper mode)",
     assumptions=["linear term functions from the injective family; non-linear user terms are not explored", "scripted stepper restricted to the call shape of GSL's explicit steppers"],
     runs=[run("c04", "c04.cpp", shards=16), run("c04_asan", "c04.cpp", "asan", args=["--reduced"], shards=4)],
 )
@@ -170,7 +170,7 @@ CHECKS["C08"] = dict(
     level=MC, engine="history-explorer",
     technique="explicit-state breadth-first search over operation histories replayed on the real objects, to closure of a canonical abstract state; reference model of value semantics with frame conditions",
     rule=HIST_NOTE + "; quick: 2 slots + 1 buffer (both alignment answers) and 3 slots + 2 buffers (alignment 0 mod 32), dims {2,3}, to closure; thorough: 3 slots + 2 buffers, dims {2,3} and {2,3,4}, all three alignment modes, to closure. "
-         "Oracle: destination holds the model value, every other slot and buffer bit-identical (frame), consumed sources valid and exclusive, no two slots on one block, external storage never replaced or freed, ledger clean",
+         "Oracle: destination holds the model value, every other slot and buffer bit-identical (frame), consumed sources valid and exclusive, no two slots on one block, external storage never replaced or freed, ledger clean. The canonical key additionally holds the drained cache contents and, per vector, whether a size-changing assignment throws (behavioural probe)",
     assumptions=["component values are not part of the abstract state (no branch of the storage logic reads a component)", "at most 3 vectors and 2 user buffers alive at once",
                  "cached blocks enter the key as a multiset of (length, alignment)"],
     runs=[run("hist_c08_small", "hist.cpp", "asan", args=["--mode", "c08", "--slots", "2", "--bufs", "1", "--dims", "2.3", "--align", "0.1"], tiers=("quick",)),
@@ -223,7 +223,7 @@ CHECKS["C09"] = dict(
          "with non-commutative f} x guarantee sets (quick {none, all, each single}; thorough all 8) instantiated from templates; run time: target in {empty, own same dim, own other dim, external same dim, external other dim} x "
          "alias pattern in {none, v is a, v is b, v and a on one user buffer, v and b on one buffer, a is b, all one object} x d in {2,3,6} (thorough 2..6) x external-buffer alignment {ideal, not} x 2 operand value sets, stale "
          "target contents; a guarantee flag is asserted only where the harness computes it to be true. Oracle: the same operation evaluated on fresh copies into a fresh temporary (lvalues, no guarantees), then =/+=/-= "
-         "component-wise (2 ulp); operands unchanged unless consumed or aliased; exception exactly for a size-changing assignment to external storage or a size-mismatched += / -=, std::runtime_error, target untouched. "
+         "component-wise (2 ulp); operands unchanged unless consumed or aliased; exception exactly for a size-changing assignment to external storage or a size-mismatched += / -=, std::runtime_error, target untouched. Operands self-owned or (one of them) externally backed; after every statement a follow-up size-changing assignment to the result must be refused exactly when its components live in a user buffer. "
          "a state = one statement shape with its configuration; a transition = its execution",
     assumptions=["nested expressions reduce to single-operation forms through temporaries", "the meaning of each operation is decided by C01-C03; here only fusion"],
     runs=[run("c09", c09_srcs(), "prod", shards=8), run("c09_asan", c09_srcs(), "asan", shards=8, args=["--reduced"])],
@@ -250,7 +250,7 @@ CHECKS["C18"] = dict(
     rule="bodies: own vectors (sum, commutators, both evolutions, rotation, UTransform -> matrix exponential), hand-over ring (a block allocated on one thread is released on the next and reused there), const queries of "
          "all expectation-value overloads on one shared evolved solver (odd threads start with a buffer-less query on a shared operator), thread exit with a filled cache, every thread building / evolving (GSL) / moving / querying its own solver. Explorer pass (ASan, arena allocator): every interleaving of 2 threads with at most 2 preemptions (quick) / 2 and 3 "
          "threads with bounds up to 4 (thorough), bound iterated 0,1,2,..; oracle: each thread's results bit-identical to the sequential schedule and to the main thread's values, ledger clean, nothing retained after all "
-         "threads ended, blocks cached by a thread released when it ends. Race pass (clang -fsanitize=thread, free running, 20 repetitions per body): any report is a violation. "
+         "threads ended, blocks cached by a thread released when it ends. Race pass (clang -fsanitize=thread, free running, 20 repetitions per body): any report is a violation. Scenario library-calls: 12 GSL entry points interposed and modelled as non-atomic steps (mark argument storage in use, yield, then call); a second thread entering a call on storage in use (one side writing) and a changed process-wide error handler are violations. "
          "states/transitions = choice points executed, traces = complete executions",
     assumptions=["GSL is not instrumented", "at most 3 threads", "race freedom is decided by the happens-before detector of the free-running pass; the explorer enumerates interleavings at synchronisation / allocation granularity"],
     runs=[run("c18", ["c18.cpp"], "asan", shards=6),
